@@ -191,6 +191,42 @@ def c02(ctx):
                     if nhist <= 3:
                         ctx.violation("C02.history-or-thread-dependent", "output on a reused/shared Linter differs from a fresh one (variant %d)" % vi,
                                       {"file": g[it["file"]], "fresh": json.loads(base[it["file"]]), "reused": it["res"], "variant": ["in order", "reversed", "shuffled", "8 threads"][vi]})
+    # (d) the verdict must not depend on how busy the machine is (a time budget) nor on the stack of the calling thread (a headroom guard)
+    load_cases = []
+    for n9 in (200, 384, 600, 900, 1200, 1800, 2400, 3200, 4000, 5000, 6500, 8000):
+        load_cases.append({"src": "new RegExp(%s);\nx = /%s[/;" % (json.dumps("a" * n9 + "("), "ab" * (n9 // 2)), "media": "js", "rules": ["no-invalid-regexp"]})
+    for profile in ("release", "debug"):
+        idle = lib.run_vh("lint", load_cases, profile=profile, jobs=1, per_case_timeout=60)
+        # load: four times as many simultaneous processes as there are cores, each linting all the cases
+        exe9 = lib.build_harness(profile)
+        import subprocess as _sp
+        data9 = "".join(json.dumps(c) + "\n" for c in load_cases)
+        procs9 = [_sp.Popen([exe9, "lint"], stdin=_sp.PIPE, stdout=_sp.PIPE, stderr=_sp.DEVNULL, text=True, env=lib.ENV) for _ in range(4 * lib.NCPU)]
+        for pr9 in procs9:
+            pr9.stdin.write(data9); pr9.stdin.close()
+        busy = []
+        for pr9 in procs9:
+            ls9 = [json.loads(l) for l in pr9.stdout.read().split("\n") if l and not l.startswith("#CASE")]
+            pr9.wait()
+            busy += (ls9 + [None] * len(load_cases))[:len(load_cases)]
+        for i9, c9 in enumerate(load_cases):
+            outs9 = {json.dumps(keys(idle[i9]))} | {json.dumps(keys(busy[j])) for j in range(i9, len(busy), len(load_cases)) if status(busy[j]) == "ok"}
+            if status(idle[i9]) == "ok" and len(outs9) > 1:
+                ctx.violation("C02.depends-on-machine-load", "a long regular expression gets different verdicts when the machine is busy (%s build, pattern of %d characters)" % (profile, len(c9["src"]) // 2),
+                              {"case": c9, "outputs": sorted(outs9)[:3]})
+                break
+    deep_cases = []
+    for d9 in (20, 40, 60, 85, 110, 140, 200, 300, 450):
+        for (o9, c9) in (("{", "}"), ("[", "]"), ("(", ")"), ("f(", ")"), ("if (a) {", "}")):
+            inner9 = "debugger;" if o9 in ("{", "if (a) {") else "a == b"
+            deep_cases.append({"src": ("x = " if o9 in ("[", "(", "f(") else "") + o9 * d9 + inner9 + c9 * d9 + (";" if o9 in ("[", "(", "f(") else ""), "media": "ts", "rules": "all"})
+    big9 = lib.run_vh("lint", deep_cases, per_case_timeout=20)
+    for mb9 in (0.5, 1, 2):
+        small9 = lib.run_vh("lint", deep_cases, per_case_timeout=20, stack_mb=mb9)
+        for c9, x9, y9 in zip(deep_cases, big9, small9):
+            if status(x9) == "ok" and status(y9) == "ok" and keys(x9) != keys(y9):
+                ctx.violation("C02.depends-on-stack-of-the-calling-thread", "the same file gives different diagnostics on a thread with a %d MiB stack" % mb9, {"case": c9, "big_stack": keys(x9), "small_stack": keys(y9)})
+                break
     # within one file: the verdict for a regular expression does not depend on the expressions before it
     rxfiles = [f for f in files if f.get("rx")][:400]
     line_cases, line_meta = [], []
